@@ -427,8 +427,13 @@ def h_feeder_swallows(i):
     import threading
     import loky.backend.queues as q
 
+    epipe = i.get("exc") == "EPIPE"
+
     class Bad:
         def __reduce__(self):
+            if epipe:
+                import errno
+                raise BrokenPipeError(errno.EPIPE, "Broken pipe (raised while pickling the object, not by the send)")
             raise IndexError("boom while pickling")
     from multiprocessing.queues import _sentinel
     buf = collections.deque([Bad(), _sentinel])      # the sentinel ends the thread function right after the faulty object
@@ -453,13 +458,14 @@ def h_feeder_swallows(i):
         if len(calls) > 3:
             raise SystemExit
     import threading as _t
-    th = _t.Thread(target=q.Queue._feed, args=(buf, Cond(), lambda b: None, _t.Lock(), lambda: None, None, False, onerror, Sem()), daemon=True)
+    th = _t.Thread(target=q.Queue._feed, args=(buf, Cond(), lambda b: None, _t.Lock(), lambda: None, None, epipe, onerror, Sem()), daemon=True)
     th.start()
     th.join(10)
-    obs = {"error_callback_calls_for_the_object": [c for c in calls if c[1] == "Bad"], "slots_released": len(sem)}
-    ok = obs["error_callback_calls_for_the_object"] == [("IndexError", "Bad")]
+    want = "BrokenPipeError" if epipe else "IndexError"
+    obs = {"error_callback_calls_for_the_object": [c for c in calls if c[1] == "Bad"], "slots_released": len(sem), "ignore_epipe": epipe}
+    ok = obs["error_callback_calls_for_the_object"] == [(want, "Bad")]
     return {"reproduced": not ok, "observed": obs,
-            "expected": {"error_callback_calls_for_the_object": [["IndexError", "Bad"]]}}
+            "expected": {"error_callback_calls_for_the_object": [[want, "Bad"]]}}
 
 
 # ---------------------------------------------------------------- C20 / C18: launching a process must not leak descriptors
